@@ -291,6 +291,11 @@ def finish(acc, matchers):
             print("  " + json.dumps({k: v[k] for k in v if k not in ("case",)})[:600])
         rc = 1
     write_evidence(acc, len(fresh), known=[{"id": k, "instances": len(v)} for k, v in known_hits.items()])
+    # a part of the check that could not run (e.g. the hook it listens to produced nothing) is a tool error, unless the
+    # parts that did run already found a violation: that is the more useful answer
+    deferred = getattr(acc, "deferred_tool_error", None)
+    if deferred is not None and rc == 0:
+        raise deferred
     return rc
 
 
